@@ -9,7 +9,8 @@
      5 contents changed but no notification
      6 contents unchanged but a notification was sent (not silent)
      7 delta law: removed ⊆ old, added ## old, (old ∖ removed) ∪ added = new, not both empty
-     8 a copy is not equal to the original or does not validate any more *)
+     8 a copy is not equal to the original or does not validate any more
+     9 the SetChangeEvents delivered to an observer differ from the notifications (removed, added) *)
 From Coq Require Import ZArith List Bool.
 From TV Require Import Common.LSet Common.Harness C07.Model.
 Import ListNotations.
@@ -76,7 +77,11 @@ Section Law.
     ++ chk 6 (changed || is_nil (o_events ob))
     ++ chk 7 (forallb (event_ok before (o_after ob)) (o_events ob))
     ++ chk 8 (negb (is_copy o) ||
-              (seteq (o_after ob) before && match o_copy_validates ob with Some true => true | _ => false end)).
+              (seteq (o_after ob) before && match o_copy_validates ob with Some true => true | _ => false end))
+    ++ chk 9 (match o_observed ob with
+              | None => true
+              | Some oev => list_eqb (fun a b => seteq (fst a) (fst b) && seteq (snd a) (snd b)) (o_events ob) oev
+              end).
 
   Fixpoint law_hist (i : Z) (before : list Z) (h : list (op * obs)) : list Z :=
     match h with
